@@ -268,7 +268,7 @@ theorem covered_vec (last fst : Bool) (p n : Nat) (lanes : Option Txt) (shape id
     have := (goodOp_vec p n lanes shape idx hp hl hs).any last
     cases fst with
     | true => simpa [joinInner] using this.toFirst
-    | false => simpa [joinInner] using this.notFirst
+    | false => simpa [joinInner] using this.toRest
   · have hsp := showNat_ne_sp n
     simp only [processOperand, RegTok.ofElem, vecElem, hsp, processRegister, expectOp, expectReg, expectElem]
     cases shape <;> cases idx <;> simp [lower, lowerTxt1, optMap]
